@@ -78,6 +78,14 @@ CHECKS = {
         "raise builds a DecodeError subclass, fields[k] read-after-write, kwargs subset of dataclass fields, loop progress; "
         "parser and serializer layouts equal the reference in both byte orders; inherited constraints are checked and pinned; "
         "size == bytes written for roots.", ref="7/C13"),
+ "C14": dict(level="translation_validation", technique="abstract interpretation of clang's type-checked AST (JSON) of every emitted C++ header + layout comparison with the reference model",
+   text="View::Parse, struct Parse and the array getters of every emitted header are evaluated symbolically for all byte "
+        "strings over clang's own AST (never compiled to code or run): each slice read/skip/subrange/at needs its bytes, "
+        "divisors are non-zero, guard arithmetic does not wrap, value-changing conversions do not shrink a parsed size, "
+        "rest-loops consume input, subscripts are in range; what Parse reads equals the reference layout (bits, byte order, "
+        "array and payload delimitation, padding, optionals, nested structs) and child views test their constraints; "
+        "Builder::Serialize / GetSize and the runtime templates are compared with the reference encoding. Functions with "
+        "compile errors are C10's and are skipped (counted).", ref="7/C14"),
  "C07": dict(level="translation_validation", technique="pairwise comparison of layouts extracted from the Rust and Python backends; sentinel agreement rule over all backend sources",
    text="For every corpus declaration supported by both backends the parser layouts and the serializer layouts extracted "
         "from emitted Rust and emitted Python are compared directly (not via the reference); every comparison of a size "
